@@ -42,6 +42,7 @@
 #include <fcppt/iterator/base_impl.hpp>
 #include <fcppt/iterator/make_range.hpp>
 #include <fcppt/iterator/range_impl.hpp>
+#include <fcppt/iterator/range_comparison.hpp>
 #include <fcppt/iterator/types_from.hpp>
 #include <fcppt/math/int_range_count.hpp>
 #include <fcppt/math/vector/arithmetic.hpp>
@@ -1447,6 +1448,19 @@ void iterator_ranges(std::string const &kind)
           elements_ok(r2, i, j, "iterator::make_range<" + kind + ">");
         if (i == j)
           VF_COUNT("iterator_range/empty-subrange");
+        // two ranges denote the same elements exactly when their begins AND their ends agree (range_comparison.hpp):
+        // against every other sub-range [p,q) of the same container
+        for (unsigned p = 0; p <= len; ++p)
+          for (unsigned q = p; q <= len; ++q)
+          {
+            fcppt::iterator::range<It> const other(std::next(c.begin(), p), std::next(c.begin(), q));
+            bool const same = p == i && q == j;
+            VF_COUNT("iterator_range/comparisons");
+            if ((r1 == other) != same || (r1 != other) == same)
+              vf::violation("iterator::range<" + kind + ">/comparison", "mismatch",
+                            "[" + std::to_string(i) + "," + std::to_string(j) + ") against [" + std::to_string(p) + "," + std::to_string(q) + "): == gives " +
+                                ((r1 == other) ? "true" : "false"));
+          }
       }
   }
 }
